@@ -6,7 +6,7 @@ CLAIMS = {
  "C02": dict(
   level="exploration", ref="DESIGN.md §3.1",
   text="Seeded deterministic simulation of the conversation with the second party: the real engine and dockerlog.Querier run against a simulated daemon whose concurrent ContainerLogs calls are released in a seeded order; the recorded transport history (which containers were asked, with which since/until/options) and the labels of every returned line are judged against a small reference selection model. Sampling over inventories, selectors and ranges: evidence, not proof.",
-  note="Trusted: the reference selection model (sim/verifsim/refsel.go: exact (in)equality, Go regexp anchored as ^(?:re)$, missing label = empty string), the reference label derivation incl. key sanitising (world.go), and the reading of the daemon's since/until. Container inventories carry at most one name; Docker label keys never collide after sanitising.",
+  note="Trusted: the reference selection model (sim/verifsim/refsel.go: exact (in)equality, Go regexp anchored as ^(?:re)$, missing label = empty string), the reference label derivation incl. key sanitising (world.go), and the reading of the daemon's since/until. Container inventories carry at most one name; Docker label keys never collide after sanitising. Regexes follow the property's anchor (^(?:re)$, Go syntax, no dot-all). An empty-valued label on a line counts as present or absent alike.",
   technique="deterministic simulation: simulated Docker daemon + seeded release scheduler; transport-history oracle against a reference selection model"),
  "C03": dict(
   level="fault_enumeration", ref="DESIGN.md §3.2",
@@ -16,17 +16,17 @@ CLAIMS = {
  "C04": dict(
   level="exploration", ref="DESIGN.md §3.3",
   text="The completion order of the concurrent per-container log requests is owned by the simulator (one parked call released per quiescence point inside a testing/synctest bubble); each sampled world is merged under K release orders - all n! for small n - with independent read fragmentation, and the merged sequence is checked for conservation, per-source order, time order and equality across release orders. Sampling over worlds: evidence, not proof.",
-  note="Trusted: the scheduler's claim that application goroutines run one at a time between quiescence points (synctest.Wait), the world encoder. The expected record set per container is what the simulated daemon delivered for the options it was actually asked with (window correctness is C02's).",
+  note="Trusted: the scheduler's claim that application goroutines run one at a time between quiescence points (synctest.Wait), the world encoder. The expected record set per container is what the simulated daemon delivered for the options it was actually asked with (window correctness is C02's); records it delivered outside the query's exact [start, end] may be passed on or filtered.",
   technique="deterministic simulation: seeded/enumerated release orders of parked ContainerLogs calls; conservation, order and cross-schedule equality oracles"),
  "C10": dict(
   level="exploration", ref="DESIGN.md §3.4",
   text="Hash-map iteration order while a sample's label set is materialised is put behind a seam (build tag verif) and driven by the PRNG, one permutation per LabelSet.Range call; every plan runs under the sorted order and three seeded orders. Results are compared with the partition of the same samples obtained through the log path and projected textbook-style, per step. Sampling over worlds and queries: evidence, not proof.",
-  note="Trusted: the engine's log path as the reference for which labels a sample carries (its stream key is a sorted, quoted rendering), textbook by/without projection, sample timestamps strictly off window edges (so C09's edge semantics never matter), integer-valued samples.",
+  note="Trusted: the engine's log path as the reference for which labels a sample carries (its stream key is a sorted, quoted rendering), textbook by/without projection, sample timestamps strictly off window edges (so C09's edge semantics never matter), integer-valued samples. Two readings of an empty-valued label are accepted if applied consistently (a label of its own; no label at all). by-over-by nesting is not generated (its semantics is C11's).",
   technique="deterministic simulation: PRNG-driven map-iteration order at a guarded seam; partition oracle from the log path"),
  "C14": dict(
   level="fault_enumeration", ref="DESIGN.md §3.5",
-  text="Query shape x fault x position x completion order, all owned by the simulator. 30% of the plans enumerate every single fault over everything the fault-free twin touched (each byte offset of each stream for cut and read error, each frame x corruption kind, each open call x release order, each list call, cancellation at each transport event); the others carry one or two seeded faults in larger worlds. Oracle: a fault the code was told about must surface as an error (never a panic or hang), an unobserved one must leave the fault-free twin's answer, and every reader handed out must have been closed when evaluation returns. Enumeration per sampled world, sampling across worlds and templates: evidence, not proof.",
-  note="Trusted: the definition of 'observed' computed from the simulated stream's own bookkeeping (bytes delivered = bytes consumed, because the decoder does not read ahead), the classification of a cut at a frame boundary or inside a header as a clean end (C03), sticky EOF/errors as net/http bodies behave.",
+  text="Query shape x fault x position x completion order, all owned by the simulator. 30% of the plans enumerate every single fault over everything the fault-free twin touched (each byte offset of each stream for cut and read error, each frame x corruption kind, each open call x release order, each list call, cancellation at each transport event); the others carry one or two seeded faults in larger worlds. Oracle: evaluation may succeed although a failure was delivered to it only if its answer is exactly the fault-free twin's (anything else is a silently truncated result; never a panic or hang), an error needs a delivered failure or an invalid query, and every reader handed out - also to requests answered after evaluation returned - must have been closed. Enumeration per sampled world, sampling across worlds and templates: evidence, not proof.",
+  note="Trusted: what the simulated stream delivered (a decoder may read ahead: a delivered failure that cannot have mattered may go unreported), the classification of a cut at a frame boundary or inside a header as a clean end (C03), sticky EOF/errors as net/http bodies behave.",
   technique="deterministic simulation with fault injection: single-fault enumeration and seeded multi-fault runs over release orders; fault-free-twin oracle and close accounting"),
  "C16": dict(
   level="exploration", ref="DESIGN.md §3.6",
